@@ -44,6 +44,11 @@ const (
 	idTableHeader  = "KF-C20-table-header"
 	idHeadingDeep  = "KF-C20-heading-deep"
 	idWrapCode     = "KF-C20-wrap-code-span"
+	idLineEnd      = "KF-C20-line-end"
+	idCodeLines    = "KF-C20-code-lines"
+	idHeadingStyle = "KF-C20-heading-style-emphasis"
+	idToggleOff    = "KF-C20-toggle-off"
+	idNumIDZero    = "KF-C20-numid-zero"
 )
 
 const allE = "C20.E1 C20.E2 C20.E3 C20.E4 C20.E5"
@@ -53,6 +58,16 @@ var kfs = []kf{
 		[]part{{allE, hasDelimiterContext, false}}},
 	{idWrapCode, "exporter: WrapLongLines breaks the finished paragraph text at every blank (wrapText, writer.go:634), also inside a code span, whose content cannot be escaped: a word of the code that is block syntax ('#', '-', '>', '=', '<div>', '|-|', '$$', or the '```' delimiter of a span that contains '``') starts a line and is read as a heading, setext underline, quote, HTML block, table or fence ('`a\\n#\\nb`')",
 		[]part{{allE, hasWrappedCodeSpan, false}}},
+	{idLineEnd, "exporter: a line feed inside the text of a run is copied into the Markdown (only table cells turn it into a blank; Word shows it as a blank): an ATX heading ends at it and the rest becomes a paragraph ('# a\\nb'), two of them with only blanks in between end the paragraph / heading / item (a quote becomes two paragraphs, which the importer glues together), one right after the marker of an item does the same, inside a code span (whose content cannot be escaped) it lets the next line start with the code's own block syntax or turns a span delimited by three backticks into a fence opening; everywhere else it reads as a soft line break, which comes back as a blank, so that the second export has 'a b' where the first had 'a\\nb'",
+		[]part{{allE, brokenByLineEnd, false}, {"C20.E5", hasSurvivingLineEnd, false}}},
+	{idCodeLines, "round trip of a CodeBlock paragraph whose text has several lines: it is exported as one fenced block, the importer makes one CodeBlock paragraph per code line (renderer.go renderCodeBlock) and the exporter writes every CodeBlock paragraph as a fenced block of its own: the lines come back as separate code blocks",
+		[]part{{"C20.E4 C20.E5", hasMultiLineCode, false}}},
+	{idHeadingStyle, "round trip of a heading whose runs carry no bold/italic of their own (every heading of a document written by Word: the formatting comes from the style): it is exported as '# x'; the importer puts the heading style's bold/italic on the runs themselves (as AddHeadingParagraph does) and the exporter writes run formatting inside a heading as emphasis: the second export has '# **x**'",
+		[]part{{"C20.E5", hasStyleOnlyHeading, true}}},
+	{idToggleOff, "reader (document.go parseRunProperties): w:b / w:i / w:strike are taken as 'on' whatever their w:val: a run with <w:b w:val=\"false\"/> (\"0\", \"off\": explicitly NOT bold, as Word writes it for plain text inside a bold style) is opened as bold and exported with '**' (ExportToFile, or Open + ExportToString)",
+		[]part{{allE, hasOffToggle, false}}},
+	{idNumIDZero, "exporter (writer.go isListParagraph): any w:numPr makes a paragraph a list item, also <w:numId w:val=\"0\"/>, which removes numbering from the paragraph: a plain paragraph of a document written by Word is exported as '- text'",
+		[]part{{allE, hasNumIDZero, false}}},
 	{idSimpleTable, "exporter: with UseGFMTables off a table is written as lines 'a | b' with '**' around the first (writeSimpleTable), which is not a Markdown table: it reads (and comes back) as paragraph text - one paragraph 'a | b c | d' for a full table, split at rows of empty cells, with literal '**' when the first row begins or ends with an empty cell; already bold header cells give '****a** | **b****'",
 		[]part{{allE, hasSimpleTable, true}}},
 	{idMetadata, "IncludeMetadata writes a '---' front matter block that the library's own converter (no front matter support) reads back as a thematic break and a setext heading 'title: \"Document\"': the round trip gains a heading, the second export differs",
@@ -165,6 +180,7 @@ var effects = []effect{
 	{id: idEmptyPara, active: hasEmptyParagraph, norm5: func(_ Case, md string) string { return normBlankLines(md) }},
 	{id: idTableHeader, active: hasPlainHeader, norm5: func(_ Case, md string) string { return normHeaderRows(md) }},
 	{id: idHeadingDeep, active: hasDeepHeading, norm5: func(_ Case, md string) string { return normDeepHeadings(md) }},
+	{id: idHeadingStyle, active: hasStyleOnlyHeading, norm5: func(_ Case, md string) string { return normHeadingEmphasis(md) }},
 }
 
 // explain looks for a smallest set of open, active effects under which `same` holds and returns its tag
@@ -684,7 +700,9 @@ func autolinkSwallows(out []byte, delim, code []bool) bool {
 		}
 	}
 	for s := range out {
-		if out[s] == ' ' || (s > 0 && strings.IndexByte(" (*_~", out[s-1]) < 0) || util.IsPunct(out[s]) {
+		// a word start: the first byte, after a blank, after '(' or a delimiter character, and - the reader looks at
+		// the position after any finished inline node as it does at a line start - after the closing backticks of a code span
+		if out[s] == ' ' || (s > 0 && strings.IndexByte(" (*_~", out[s-1]) < 0 && !(delim[s-1] && out[s-1] == '`')) || util.IsPunct(out[s]) {
 			continue
 		}
 		line := out[s:wordEnd(s)]
@@ -871,4 +889,192 @@ func hasPlainHeader(c Case) bool {
 		}
 	}
 	return false
+}
+
+// ---------------------------------------------------------------------------------------------
+// KF-C20-line-end / KF-C20-code-lines: line ends inside run text.
+
+var reBlankLine = regexp.MustCompile(`\n[ \t\r]*\n`)
+
+// hasLineEnd: a line feed (alone or after a carriage return). A carriage return alone is no line end for goldmark -
+// the reference reader and the parser inside the library's converter -, although CommonMark names it as one.
+func hasLineEnd(s string) bool { return strings.Contains(s, "\n") }
+
+// inlineText: the text of a block as the exporter writes it on the block's line(s): a heading and a normal paragraph
+// without the blanks at its edges, an item and a quote as they are.
+func inlineText(b Block) string {
+	switch b.K {
+	case "h":
+		return strings.TrimSpace(b.T)
+	case "p":
+		return strings.TrimSpace(b.paraText())
+	case "li", "q":
+		if blank(b.T) {
+			return ""
+		}
+		return b.T
+	}
+	return ""
+}
+
+// brokenByLineEnd: a line end at a place where it ends the block: inside an ATX heading; as a blank line (two line
+// ends with only blanks in between) inside a heading, paragraph, item or quote (the quote stays one quote, of two
+// paragraphs, which the importer glues together); in an item also before the first visible character (nothing may
+// follow the marker's line but indented text).
+func brokenByLineEnd(c Case) bool {
+	for _, b := range c.Blocks {
+		s := inlineText(b)
+		if !hasLineEnd(s) {
+			continue
+		}
+		switch b.K {
+		case "h":
+			if !(c.O.Setext && b.Level <= 2) {
+				return true
+			}
+		case "li":
+			if hasLineEnd(s[:len(s)-len(strings.TrimLeftFunc(s, unicode.IsSpace))]) {
+				return true
+			}
+			s = strings.TrimRightFunc(s, unicode.IsSpace) + "\n" // the item's own line end
+		case "q":
+			s = strings.TrimSpace(s)
+		case "p":
+			if codeSpanBrokenByLineEnd(b) {
+				return true
+			}
+		}
+		if reBlankLine.MatchString(s) {
+			return true
+		}
+	}
+	return false
+}
+
+// codeSpanBrokenByLineEnd: a code-font run (as merged by the exporter) with a line feed inside, whose content cannot
+// be escaped: the span is delimited by three or more backticks (it contains two backticks in a row), so that its first line reads as
+// the opening of a fenced code block when it starts a line; or a line after the first starts with block syntax.
+func codeSpanBrokenByLineEnd(b Block) bool {
+	for _, r := range mergedRuns(b) {
+		if r.mask&mC == 0 || !hasLineEnd(r.core) {
+			continue
+		}
+		if strings.Contains(r.core, "``") {
+			return true
+		}
+		for i, line := range strings.Split(r.core, "\n") {
+			if ws := strings.Fields(line); i > 0 && len(ws) > 0 && lineStartSyntax(ws[0]) {
+				return true
+			}
+		}
+	}
+	return false
+}
+
+// hasSurvivingLineEnd: some line end of the text reaches the Markdown.
+func hasSurvivingLineEnd(c Case) bool {
+	for _, b := range c.Blocks {
+		switch b.K {
+		case "table":
+			for _, row := range b.Cells {
+				for _, cell := range row {
+					if strings.Contains(strings.TrimSpace(cell), "\r\n") {
+						return true // only the line feed becomes a blank
+					}
+				}
+			}
+		case "code":
+			if (hasLineEnd(b.T) || strings.HasSuffix(b.T, "\r")) && !blank(b.T) {
+				return true
+			}
+		default:
+			// a carriage return among the blanks at the end of an item or quote forms a CR LF with the line feed the exporter ends the line with
+			if s := inlineText(b); hasLineEnd(s) || ((b.K == "li" || b.K == "q") && strings.Contains(s[len(strings.TrimRightFunc(s, unicode.IsSpace)):], "\r")) {
+				return true
+			}
+		}
+	}
+	return false
+}
+
+func hasMultiLineCode(c Case) bool {
+	for _, b := range c.Blocks {
+		if b.K == "code" && !blank(b.T) && hasLineEnd(b.T) {
+			return true
+		}
+	}
+	return false
+}
+
+// ---------------------------------------------------------------------------------------------
+// documents written by another producer
+
+func isForeign(c Case) bool { return c.W != nil && c.W.Src == "foreign" }
+
+// hasStyleOnlyHeading: a visible heading of a foreign document (the foreign writer gives heading runs no bold/italic).
+func hasStyleOnlyHeading(c Case) bool {
+	if !isForeign(c) {
+		return false
+	}
+	for _, b := range c.Blocks {
+		if b.K == "h" && !blank(b.T) {
+			return true
+		}
+	}
+	return false
+}
+
+// hasOffToggle: a run with visible text carries an explicit "off" value for a format it does not have.
+func hasOffToggle(c Case) bool {
+	if !isForeign(c) {
+		return false
+	}
+	for _, b := range c.Blocks {
+		if b.K != "p" && b.K != "table" && b.Off != 0 && !blank(b.T) {
+			return true
+		}
+		for _, r := range b.Runs {
+			if r.Off&^r.mask() != 0 && !blank(r.T) {
+				return true
+			}
+		}
+	}
+	return false
+}
+
+func hasNumIDZero(c Case) bool {
+	if !isForeign(c) {
+		return false
+	}
+	for _, b := range c.Blocks {
+		if b.K == "p" && b.NoNum && !blank(b.paraText()) {
+			return true
+		}
+	}
+	return false
+}
+
+var (
+	reATXLine    = regexp.MustCompile(`^#{1,6} `)
+	reSetextLine = regexp.MustCompile(`^(=+|-+)$`)
+)
+
+// normHeadingEmphasis removes emphasis delimiters from heading lines (ATX lines and the line above a setext underline,
+// whose length is normalised).
+func normHeadingEmphasis(md string) string {
+	lines := strings.Split(md, "\n")
+	for i, l := range lines {
+		switch {
+		case reATXLine.MatchString(l):
+			lines[i] = stripChars(l, "*_")
+		case reSetextLine.MatchString(l):
+			// an underline is as long as the heading text with its delimiters (both exports are treated alike, so
+			// lines that only look like an underline do no harm)
+			lines[i] = l[:1]
+			if i > 0 {
+				lines[i-1] = stripChars(lines[i-1], "*_")
+			}
+		}
+	}
+	return strings.Join(lines, "\n")
 }
